@@ -13,6 +13,8 @@ Oracles that need no model (the failing-input search):
   * history    — a fresh interpreter put into the same module gives the same program (no stale state);
   * module     — the parse-time module changes only through `.module(...)`;
   * eval       — evaluating the re-parsed program gives what the first gives (safe programs only);
+  * call-history — the text and its blank-space siblings through __call__ (parse cache) on long-lived
+                    interpreters, in both orders: the program each call would run is the parse of that very text;
   * address-reuse — the text rebuilt as a transient string on the memory block of a prefix parsed and dropped
                     just before (same id()) parses to the program of the first parse.
 
@@ -115,6 +117,7 @@ class _W:
     fresh = None        # (premod, interpreter, uses): a young interpreter for the history check
     n = 0
     switches = 0
+    stubs = [None, None]    # long-lived stubbed interpreters of the call-history oracle
 
 
 class Budget(BaseException):
@@ -406,6 +409,70 @@ def transient_check(k, text, premod, ref, out):
     return None
 
 
+def blank_siblings(text):
+    """texts that differ from `text` only in blank space: around it, and in its inner runs of blanks"""
+    vs = [text + " ", text + "\n", " " + text, text + "\t", "\n" + text + "\n", text + "  ", "\t" + text,
+          text.strip(), text.rstrip(), text.lstrip(), re.sub(r" +", "  ", text), re.sub(r" {2,}", " ", text)]
+    out = []
+    for v in vs:
+        if v != text and v not in out:
+            out.append(v)
+    return out
+
+
+def stub_interp(premod):
+    """an interpreter whose __call__ parses (and caches) but evaluates nothing: `call` only records the
+    statements it is handed, so the program __call__ would run for a text can be read off without running it"""
+    k = new_interp(premod)
+    k._c12_rec = []
+    k.call = k._c12_rec.append
+    return k
+
+
+def called_program(k, text, premod):
+    """what __call__ would execute for `text`: ('ok', dump) / ('err', type name)"""
+    import klongpy.interpreter as ki
+    saved = ki.compile_expr
+    ki.compile_expr = lambda *a, **kw: None
+    del k._c12_rec[:]
+    try:
+        to_module(k, premod)
+        k(text)
+        return ("ok", fulldump(list(k._c12_rec)))
+    except RecursionError:
+        return ("deep", "")
+    except Exception as e:  # noqa
+        return ("err", type(e).__name__)
+    finally:
+        ki.compile_expr = saved
+
+
+def call_history_check(text, premod, out):
+    """Same text, same module => same program, across a history of evaluations through __call__ (which keeps a
+    parse cache): the text and its blank-space siblings are handed to two long-lived stubbed interpreters, in
+    the orders (sibling, text, siblings...) and (text, siblings...); the program each call would execute must
+    be the one a young interpreter parses from that very text.  Trailing blank space is significant when the
+    last lexeme runs to the end of the input (`0c` + blank, an open string, a shifted comment)."""
+    sibs = blank_siblings(text)[:8]
+    if not sibs:
+        return None
+    for slot, order in ((0, [sibs[0], text] + sibs[1:]), (1, [text] + sibs)):
+        c = _W.stubs[slot]
+        if c is None or c[0] != premod or c[2] >= 300:
+            c = _W.stubs[slot] = [premod, stub_interp(premod), 0]
+        c[2] += 1
+        for v in order:
+            got = called_program(c[1], v, premod)
+            f = young_interp(premod)
+            tag, val, _ = plain(lambda: f.prog(v))
+            want = ("ok", fulldump(val[1])) if tag == "ok" else ("err", type(val).__name__) if tag == "err" else ("deep", "")
+            if got != want and "deep" not in (got[0], want[0]) and not same_up_to_address(got, want):
+                _W.stubs[slot] = None
+                return (f"after {[x for x in order[:order.index(v)]]!r} were evaluated on the same interpreter, __call__({v!r}) "
+                        f"would run {got} but the text parses to {want}")[:800]
+    return None
+
+
 def model_line(text, premod):
     return "parse t=" + enc(text) + (" mod=" + enc(premod) if premod else "") + unicode_classes(text)
 
@@ -533,8 +600,13 @@ def run_case0(text, premod, want_eval, mrep=None):
             bad = transient_check(f, text, premod, ref, out)
             if bad:
                 out["problems"].append(("address-reuse", bad))
+        # ---- blank-space siblings through __call__ (parse cache) on long-lived interpreters
+        if tag in ("ok", "err") and len(text) <= 64 and (len(text) <= 6 or want_eval == 2 or zlib.crc32(text.encode()) % 4 == 1):
+            bad = call_history_check(text, premod, out)
+            if bad:
+                out["problems"].append(("call-history", bad))
         # ---- evaluation of the first and of the re-parsed program
-        if want_eval and (tag, tag2) == ("ok", "ok") and not SAFE_EVAL.search(text):
+        if want_eval is True and (tag, tag2) == ("ok", "ok") and not SAFE_EVAL.search(text):
             e1 = _eval(new_interp(premod), val[1])
             e2 = _eval(new_interp(premod), val2[1])
             out["eval"] = e1[0]
@@ -956,6 +1028,13 @@ def opener_strings():
     return out
 
 
+def sibling_seeds():
+    """texts whose last lexeme runs to the end of the input, so that a blank behind them is significant"""
+    tails = ["0c", "0c ", "0c\n", "0c\t", "\"ab", "\"ab ", "\"", "\" ", ":\"c", ":\"c ", ":", ".", "a:", "a.", "1.", "1e", "a::", "-"]
+    heads = ["", "a::", "s::", "f(", "[", "[1 ", "{x,", "1+", ".p(", "a;", "t(\"x\";"]
+    return [h + t for h in heads for t in tails]
+
+
 def unicode_strings():
     """every non-ASCII character class in every syntactic position"""
     out = []
@@ -1055,6 +1134,11 @@ def _cases(ctx):
     for s in unterminated_strings():
         if fresh(s, None):
             yield ("unterminated", s, None, False)
+    for s in sibling_seeds():
+        if fresh(s, None):
+            yield ("sibling", s, None, 2)       # 2 = evaluate-safe check off, call-history check forced
+        if fresh(s, "m"):
+            yield ("sibling", s, "m", 2)
     for s in unicode_strings():
         if fresh(s, None):
             yield ("unicode", s, None, True)
@@ -1117,6 +1201,7 @@ def _report(ctx, group, a):
             "module-object-address": "two parses differ only in a memory address inside a module-qualified symbol name",
             "setup": "setting the module through .module(...) failed",
             "slow": "the parse takes seconds of wall clock although the call count is small",
+            "call-history": "after a text differing only in blank space was evaluated, __call__ runs another program for this text than the text parses to",
             "address-reuse": "the same text as a new string object (on the address of a text parsed and dropped before) parses differently",
         }.get(key, key)
         ctx.oracle_fail("parse:" + key, case, "property holds", detail[:600], what)
